@@ -236,7 +236,7 @@ struct DMode { int pAct, maxDepth, minOps, maxOps; bool structural; int nd; };
 static DMode dmodeOf(const std::string & m)
 {
 	DMode r; r.pAct = 30; r.maxDepth = 2; r.minOps = 30; r.maxOps = 120; r.structural = false; r.nd = 1;
-	if(m == "c10") { r.structural = true; r.nd = 3; r.pAct = 15; }
+	if(m == "c10" || m == "c20") { r.structural = true; r.nd = 3; r.pAct = 15; }
 	return r;
 }
 static const unsigned char kPrefill[4] = { 0x00, 0xFF, 0xA5, 0x5C };
@@ -269,8 +269,10 @@ struct World : CallbackSink
 	~World() { for(int i = 0; i < MAXD; ++i) destroyD(i); }
 	D & Dat(int i) { return *reinterpret_cast<D *>(slots[i].buf); }
 	void prefill(int i, unsigned pat) {
+		static const bool noPrefill = ctx().optInt("noprefill", 0) != 0; // memcheck runs: leave the storage undefined
+		if(noPrefill) { if(pat >= 4) rng.next(); return; }
 		if(pat < 4) memset(slots[i].buf, kPrefill[pat], sizeof(D));
-		else for(size_t k = 0; k < sizeof(D); ++k) slots[i].buf[k] = (unsigned char)rng.below(256);
+		else { Rng fill(rng.next()); for(size_t k = 0; k < sizeof(D); ++k) slots[i].buf[k] = (unsigned char)fill.below(256); } // one draw: the object size must not influence the program
 	}
 	void destroyD(int i) { if(alive[i]) { Dat(i).~D(); alive[i] = false; } }
 
@@ -486,7 +488,7 @@ struct World : CallbackSink
 		if(c < 30) doAdd(d);
 		else if(c < 45) doRemove(d);
 		else if(c < 53) doQuery(d);
-		else if(c < 60 && ! nested) doEnum(d, (int)rng.below(NKEYS), rng.chance(1, 2), "forEach");
+		else if(c < 60 && ! nested) { const int ek = (int)rng.below(NKEYS); const bool eif = rng.chance(1, 2); doEnum(d, ek, eif, "forEach"); } // two draws: never as arguments of one call (unspecified order)
 		else if((int)frames.size() <= mode.maxDepth) doDispatch(d);
 		else doQuery(d);
 	}
@@ -522,7 +524,7 @@ struct World : CallbackSink
 
 static uint64_t gTraceXor = 0;
 template <typename Cfg>
-static void runCfg(const DMode & mode, Rng & rng, uint64_t caseNo, int cfgIndex)
+static uint64_t runCfg(const DMode & mode, Rng & rng, uint64_t caseNo, int cfgIndex)
 {
 	ledger().resetCase();
 	const int nops = rng.range(mode.minOps, mode.maxOps);
@@ -541,6 +543,7 @@ static void runCfg(const DMode & mode, Rng & rng, uint64_t caseNo, int cfgIndex)
 	if(nontrivial) markNontrivial(f.h);
 	gTraceXor ^= mix(h, caseNo);
 	if(wantSample() && nontrivial) addSample("{\"case\":" + unum(caseNo) + ",\"history\":" + oplogJson(ctx().oplog, 60) + "}");
+	return h;
 }
 template <bool Enabled, typename Cfg>
 static typename std::enable_if<Enabled>::type runCfgIf(const DMode & mode, Rng & rng, uint64_t caseNo, int cfgIndex) { runCfg<Cfg>(mode, rng, caseNo, cfgIndex); }
@@ -552,9 +555,50 @@ enum { NCFG = 12 };
 #ifndef VF_CFG_MASK
 #define VF_CFG_MASK 0xfff
 #endif
+// C20: the same program under a family that differs only in policies (threading, map kind, callback storage, argument passing mode)
+#if (VF_CFG_MASK >> 12) & 1
+template <typename Policies, int N>
+struct FamCfg
+{
+	typedef eventpp::EventDispatcher<int, void(int, const TPayload &), Policies> D;
+	static const char * name() { return "ED<int,void(int,const TPayload&)> policy family member"; }
+	static int key(int k) { return KI(k); }
+	static void dispatch(D & d, int k, int eid, int, uint32_t form) {
+		if(form == 0) { int kk = KI(k); TPayload p(eid); d.dispatch(kk, p); }
+		else if(form == 1) { const int kk = KI(k); const TPayload p(eid); d.dispatch(kk, p); }
+		else d.dispatch(KI(k), TPayload(eid));
+	}
+	static void expect(ArgPack & p, int k, int eid, int) { p.push(KI(k)); p.push(eid); }
+};
+template <typename K, typename V> using PlainMap = std::map<K, V>;
+struct FPolMap { template <typename K, typename V> using Map = PlainMap<K, V>; };
+struct FPolGreaterSingle { template <typename K, typename V> using Map = GreaterMap<K, V>; typedef eventpp::SingleThreading Threading; };
+struct FPolIncludeSpin { typedef eventpp::ArgumentPassingIncludeEvent ArgumentPassingMode; typedef eventpp::GeneralThreading<eventpp::SpinLock> Threading; };
+struct FPolCustomCb { typedef TCallback Callback; };
+static void runFamily(const DMode & mode, uint64_t caseNo)
+{
+	const uint64_t seed = ctx().curSeed;
+	uint64_t h[6];
+	{ Rng r(seed); h[0] = runCfg<FamCfg<eventpp::DefaultPolicies, 0> >(mode, r, caseNo, 100); }
+	{ Rng r(seed); h[1] = runCfg<FamCfg<PolSingle, 1> >(mode, r, caseNo, 101); }
+	{ Rng r(seed); h[2] = runCfg<FamCfg<FPolMap, 2> >(mode, r, caseNo, 102); }
+	{ Rng r(seed); h[3] = runCfg<FamCfg<FPolGreaterSingle, 3> >(mode, r, caseNo, 103); }
+	{ Rng r(seed); h[4] = runCfg<FamCfg<FPolIncludeSpin, 4> >(mode, r, caseNo, 104); }
+	{ Rng r(seed); h[5] = runCfg<FamCfg<FPolCustomCb, 5> >(mode, r, caseNo, 105); }
+	static const char * names[] = { "default(unordered_map,std::mutex,std::function,auto-detect)", "SingleThreading", "std::map", "user map(std::greater)+SingleThreading", "IncludeEvent+SpinLock", "custom callback" };
+	for(int i = 1; i < 6 && ! caseHasViolation(); ++i)
+		if(h[i] != h[0]) violation(std::string("c20:trace-differs-between-policies:") + names[i], std::string("the same generated program produced a different observable trace under ") + names[i] + " than under " + names[0]);
+	gTraceXor ^= mix(h[0], caseNo); // six identical contributions cancel: add a seventh so the per-build accumulator is meaningful
+	count("family_programs");
+	count("family_runs", 6);
+}
+#else
+static void runFamily(const DMode &, uint64_t) { --ctx().casesRun; }
+#endif
 static void runCase(uint64_t caseNo, Rng & rng)
 {
 	static DMode mode = dmodeOf(ctx().mode);
+	if(ctx().mode == "c20") { runFamily(mode, caseNo); return; }
 	long long only = ctx().optInt("cfg", -1);
 	const int cfg = only >= 0 ? (int)only : (int)(caseNo % NCFG);
 #define VF_CFG(n) case n: if((VF_CFG_MASK >> n) & 1) { runCfgIf<((VF_CFG_MASK >> n) & 1) != 0, DC##n>(mode, rng, caseNo, n); } else { skipCase(); } break;
